@@ -310,6 +310,11 @@ func (s *session) execBatch(o op) bool {
 		nt = false
 	}
 	s.emit(o.Kind, line, out, nt)
+	if isRejected(out) && isRejected(sr.out) {
+		// both reject: the property asks for "rejected as a whole", not for a particular reason; a
+		// different reason is a disagreement with the model (impl.txt / model.txt), not a violation
+		out = sr.out
+	}
 	if out != sr.out {
 		if sr.judged {
 			s.fail(fmt.Sprintf("result:%s:spec=%s:impl=%s", o.Kind, kindOf(sr.out), kindOf(out)),
